@@ -73,11 +73,11 @@ Proof.
     - inv R. rewrite find_upd_same, F by exact Hf. reflexivity.
     - destruct (find_item (upd_item (c_items c) r f) n) eqn:Fn'; [|exact R].
       assert (find_item (upd_item (c_items c) r f) n = None) by (apply find_upd_some; assumption). congruence. }
-  assert (Hall : exists r0 it0 v0, Some r = Some r0 /\ Some it = Some it0 /\ Some v = Some v0 /\
+  assert (Hall : exists r0 it0 v0, Some r = Some r0 /\ find_item (c_items c) r0 = Some it0 /\ parse (i_ty it0) s = Some v0 /\
             (valid r0 v0 = true <-> (if valid r v then Ok c' else ErrInvalid c') = Ok c') /\
             get c' n = Some v0 /\ calls c' r0 = calls c r0 + 1 /\
             (forall m, m <> r0 -> find_item (c_items c') m = find_item (c_items c) m) /\ c_aliases c' = c_aliases c).
-  { exists r, it, v. repeat split; try reflexivity.
+  { exists r, it, v. repeat split; try reflexivity; try assumption.
     - intro H. now rewrite H.
     - destruct (valid r v); [reflexivity|discriminate].
     - unfold get. rewrite Hres. cbn [c_items c']. rewrite find_upd_same, F by exact Hf. reflexivity.
@@ -128,7 +128,7 @@ Proof. intros valid c n s F A. unfold set_string, resolve. now rewrite F, A. Qed
 Lemma alias_same : forall valid c a r it s,
   find_item (c_items c) a = None -> find_alias (c_aliases c) a = Some r -> find_item (c_items c) r = Some it ->
   set_string valid c a s = set_string valid c r s.
-Proof. intros valid c a r it s Fa A Fr. unfold set_string, resolve. now rewrite Fa, A, Fr. Qed.
+Proof. intros valid c a r it s Fa A Fr. unfold set_string, resolve. rewrite Fa, A, Fr. cbv beta iota. rewrite Fr. reflexivity. Qed.
 
 (** * the registered table (regenerated from the built library) *)
 Definition reg_cfg : cfg :=
@@ -147,16 +147,14 @@ Lemma registered_names_resolve :
   (forall a r, In (a, r) cfg_aliases -> resolve reg_cfg a = Some r /\ exists t, In (r, t) cfg_items).
 Proof.
   assert (H : reg_ok = true) by (vm_compute; reflexivity).
-  unfold reg_ok in H. repeat (apply andb_true_iff in H as [H ?]).
-  match goal with X : forallb _ cfg_items = true |- _ => rename X into Hi end.
-  match goal with X : forallb (fun ar => match resolve _ _ with _ => _ end) cfg_aliases = true |- _ => rename X into Ha end.
-  match goal with X : forallb _ cfg_aliases = true |- _ => rename X into Ht end.
+  unfold reg_ok in H. apply andb_true_iff in H as [H Hi]. apply andb_true_iff in H as [H Ha].
+  apply andb_true_iff in H as [Hn Ht].
   rewrite forallb_forall in Hi, Ha, Ht. split.
   - intros n t Hin. specialize (Hi _ Hin). cbn [fst] in Hi. destruct (resolve reg_cfg n); [|discriminate].
-    apply seqb_eq in Hi. congruence.
+    apply seqb_eq in Hi. now rewrite Hi.
   - intros a r Hin. split.
     + specialize (Ha _ Hin). cbn [fst snd] in Ha. destruct (resolve reg_cfg a); [|discriminate].
-      apply seqb_eq in Ha. congruence.
+      apply seqb_eq in Ha. now rewrite Ha.
     + specialize (Ht _ Hin). cbn [snd] in Ht. apply existsb_exists in Ht as ([n t] & Hin' & E).
       cbn [fst] in E. apply seqb_eq in E. subst. eauto.
 Qed.
@@ -172,7 +170,7 @@ Proof.
     - intros (x & Hin & E). apply seqb_eq in E. now subst.
     - intro Hin. exists l. split; [exact Hin|apply seqb_refl]. }
   destruct (existsb (Config.str_eqb l) true_lits) eqn:Et.
-  - apply Hex in Et. destruct b; split; intro H; try tauto; try congruence. destruct H. contradiction.
+  - apply Hex in Et. destruct b; split; intro H; try tauto; try congruence; try (destruct H; contradiction).
   - assert (~ In l true_lits) by (intro X; apply Hex in X; congruence).
     destruct (existsb (Config.str_eqb l) false_lits) eqn:Ef.
     + apply Hex in Ef. destruct b; split; intro H'; try tauto; try congruence.
